@@ -246,22 +246,19 @@ theorem fan_logNoSer (env : Env) (w : World) (t : String) (f : Fields) : Fan env
   unfold World.logNoSer
   exact (Fan.ofQuiet (quiet_currentOrFresh w)).trans ((Fan.ofQuiet (quiet_buildLog _ _ _ _)).trans (fan_send env _ _))
 
-theorem fan_getFields (env : Env) (fuel : Nat) (w : World) (e : Exc) : Fan env w (World.getFields env fuel w e).1 := by
-  induction fuel generalizing w e with
-  | zero => exact Fan.refl env w
-  | succ n ih =>
-    unfold World.getFields
-    cases firstExtractor env (env.mro (e.cls env)) with
-    | none => exact Fan.refl env w
-    | some f =>
-      simp only
-      cases f e w.extCalls with
-      | ok fs => exact Fan.ofQuiet (quiet_extCalls w)
-      | error e' => exact (Fan.ofQuiet (quiet_extCalls w)).trans ((ih _ _).trans (fan_logNoSer env _ _ _))
+theorem fan_getFields (env : Env) (w : World) (e : Exc) : Fan env w (World.getFields env w e).1 := by
+  unfold World.getFields
+  cases firstExtractor env (env.mro (e.cls env)) with
+  | none => exact Fan.refl env w
+  | some f =>
+    simp only
+    cases f e w.extCalls with
+    | ok fs => exact Fan.ofQuiet (quiet_extCalls w)
+    | error e' => exact (Fan.ofQuiet (quiet_extCalls w)).trans (fan_logNoSer env _ _ _)
 
 theorem fan_writeTraceback (env : Env) (w : World) (e : Exc) : Fan env w (w.writeTraceback env e) := by
   unfold World.writeTraceback
-  exact (fan_getFields env _ w e).trans (fan_logNoSer env _ _ _)
+  exact (fan_getFields env w e).trans (fan_logNoSer env _ _ _)
 
 theorem fan_loggerWrite (env : Env) (w : World) (m : Msg) (sers : Option (List (String × Nat))) :
     Fan env w (w.loggerWrite env m sers) := by
@@ -302,7 +299,7 @@ theorem fan_finishRec (env : Env) (w : World) (h : Nat) (exc : Option Exc) : Fan
       | none =>
         exact h0.trans ((Fan.ofQuiet (quiet_clock _)).trans ((Fan.ofQuiet (quiet_nextLevel _ _)).trans (fan_loggerWrite env _ _ _)))
       | some e =>
-        exact h0.trans ((fan_getFields env _ _ e).trans ((Fan.ofQuiet (quiet_clock _)).trans
+        exact h0.trans ((fan_getFields env _ e).trans ((Fan.ofQuiet (quiet_clock _)).trans
           ((Fan.ofQuiet (quiet_nextLevel _ _)).trans (fan_loggerWrite env _ _ _))))
 
 /-- silent updates of the control state (context, variables, probes, ids, success fields) -/
